@@ -1,7 +1,7 @@
 SPECIFICATION Spec
 CONSTANTS
   Pool3 = {1, 2, 4}
-  Pool2 = {3, 5, 6, 8, 9}
+  Pool2 = {3, 5, 6, 8, 9, 12}
   MaxMsgs = 3
   EmitVectors = TRUE
 INVARIANTS OutPrefix NotEarly NotLate BufferSuffix Alive AllOut PrefixNeedMore
